@@ -135,7 +135,7 @@ impl Space {
                 }
             }
             Fam::Bombs => bombs().len() as u64,
-            Fam::Deep => 21 * 420 * 21,
+            Fam::Deep => 21 * 420 * 21 + 8000 * 21,
             Fam::DeepConfirm => 0,
         }
     }
@@ -280,10 +280,25 @@ impl Space {
                 (Input::Message(b), name)
             }
             Fam::Deep | Fam::DeepConfirm => {
-                let t = vmc::explore::unrank(idx, &[21, 420, 21]);
                 let ps = tok_words_ext(0, 1);
-                let us = tok_words_ext(1, 2);
-                let fam_ = Periodic { p: ps[t[0] as usize].clone(), u: us[t[1] as usize].clone(), v: ps[t[2] as usize].clone(), s: vec![] };
+                let fam_ = if idx < 21 * 420 * 21 {
+                    let t = vmc::explore::unrank(idx, &[21, 420, 21]);
+                    let us = tok_words_ext(1, 2);
+                    Periodic { p: ps[t[0] as usize].clone(), u: us[t[1] as usize].clone(), v: ps[t[2] as usize].clone(), s: vec![] }
+                } else {
+                    // three-token units (e.g. member name, begin collection, group delimiter), no prefix
+                    let t = vmc::explore::unrank(idx - 21 * 420 * 21, &[8000, 21]);
+                    let u3 = {
+                        let mut x = t[0];
+                        let mut w = vec![0usize; 3];
+                        for i in (0..3).rev() {
+                            w[i] = (x % 20) as usize;
+                            x /= 20;
+                        }
+                        w
+                    };
+                    Periodic { p: vec![], u: u3, v: ps[t[1] as usize].clone(), s: vec![] }
+                };
                 let unit = fam_.bytes(1).len() - 8;
                 let n = if f == Fam::Deep { 400 } else { ((1usize << 20) / unit.max(1)).min(60_000) };
                 let mut b = fam_.bytes(n);
@@ -766,7 +781,7 @@ pub fn run(ctx: &Ctx) -> ! {
     let mut rep = Report::new(
         ctx,
         "exploration",
-        "(a) every byte string of <= 2 (3) bytes after a valid header; (b) value tag 0x00-0xff x value length {0..16, 0xffff short body, 0xffff full body} x fill {00, ff, counting} in three contexts (named attribute, additional value, collection member) and through the stand-alone IppValue::parse; (c) every (language-length, text-length) pair of {0..6, 0xfffe, 0xffff}^2 against bodies of 0..8 octets for both with-language tags; (d) every sequence of <= 5 (6) tokens of the 16-token wire alphabet; (e) grammar-aware mutations of every corpus message (every length field <- 0 / -1 / +1 / 0xffff / 0x8000, truncation at every offset, deletion and duplication of every token, every tag byte <- every byte), thorough: + every token-boundary splice of the short corpus messages; (f) structural bombs doubling up to 1 MiB (nesting with/without member names, closed/unclosed/truncated, set width, attribute count, group count, member count, maximal values); (g) EVERY periodic family p.u^n.v^n over the EXTENDED 20-token alphabet (named and unnamed variant of every token class; |p| <= 1, |u| <= 2, |v| <= 1: 185 220 families) at n = 400, screened for results nested deeper than 300 levels (iterative measure), every candidate re-run at ~1 MiB in a process of its own. Every input through IppParser and AsyncIppParser; every Ok result is displayed, re-encoded, traversed, cloned and dropped. All in worker PROCESSES (2 MiB thread stack): panic (caught), death by signal and stalled heartbeat are violations, confirmed by re-running the single case alone. distinct = case index per family; non-trivial = the parser returned Ok and the result was exercised",
+        "(a) every byte string of <= 2 (3) bytes after a valid header; (b) value tag 0x00-0xff x value length {0..16, 0xffff short body, 0xffff full body} x fill {00, ff, counting} in three contexts (named attribute, additional value, collection member) and through the stand-alone IppValue::parse; (c) every (language-length, text-length) pair of {0..6, 0xfffe, 0xffff}^2 against bodies of 0..8 octets for both with-language tags; (d) every sequence of <= 5 (6) tokens of the 16-token wire alphabet; (e) grammar-aware mutations of every corpus message (every length field <- 0 / -1 / +1 / 0xffff / 0x8000, truncation at every offset, deletion and duplication of every token, every tag byte <- every byte), thorough: + every token-boundary splice of the short corpus messages; (f) structural bombs doubling up to 1 MiB (nesting with/without member names, closed/unclosed/truncated, set width, attribute count, group count, member count, maximal values); (g) EVERY periodic family p.u^n.v^n over the EXTENDED 20-token alphabet (named and unnamed variant of every token class; |p| <= 1, |u| <= 2, |v| <= 1: 185 220 families; plus |u| = 3 without prefix: 168 000) at n = 400, screened for results nested deeper than 300 levels (iterative measure), every candidate re-run at ~1 MiB in a process of its own. Every input through IppParser and AsyncIppParser; every Ok result is displayed, re-encoded, traversed, cloned and dropped. All in worker PROCESSES (2 MiB thread stack): panic (caught), death by signal and stalled heartbeat are violations, confirmed by re-running the single case alone. distinct = case index per family; non-trivial = the parser returned Ok and the result was exercised",
     );
     rep.assume("worker threads use a 2 MiB stack (Rust's default for spawned threads): deeper recursion than that is an abort a user would see");
     let space = Space::new(ctx.tier);
